@@ -85,6 +85,9 @@ type ReadPlan struct {
 	// ErrAt >= 0: a non-EOF error is returned when this offset is reached.
 	ErrAt       int  `json:"err_at"`
 	ErrWithData bool `json:"err_with_data,omitempty"`
+	// ErrOnce: the error is reported once (an interrupted call, a device that
+	// recovers); the reads after it go on where the stream stopped.
+	ErrOnce bool `json:"err_once,omitempty"`
 	// TruncAt >= 0: the stream ends (EOF) at this offset.
 	TruncAt int `json:"trunc_at"`
 	// EOFWithData: the last read returns its bytes together with io.EOF.
@@ -178,6 +181,8 @@ type SimReader struct {
 	budget int
 	over   bool
 	st     *streamStats
+	// errFired: a one-time error has been reported
+	errFired bool
 }
 
 func newSimReader(data []byte, plan ReadPlan, st *streamStats) *SimReader {
@@ -206,8 +211,13 @@ func (r *SimReader) Read(p []byte) (int, error) {
 		r.st.zeroReads++
 		return 0, nil
 	}
-	if r.plan.ErrAt >= 0 && r.off >= r.plan.ErrAt {
+	errAt := r.plan.ErrAt
+	if r.plan.ErrOnce && r.errFired {
+		errAt = -1
+	}
+	if errAt >= 0 && r.off >= errAt {
 		r.st.readErrors++
+		r.errFired = true
 		return 0, errInjectedRead
 	}
 	if r.off >= end {
@@ -230,8 +240,8 @@ func (r *SimReader) Read(p []byte) (int, error) {
 	if n > end-r.off {
 		n = end - r.off
 	}
-	if r.plan.ErrAt >= 0 && r.off+n > r.plan.ErrAt {
-		n = r.plan.ErrAt - r.off
+	if errAt >= 0 && r.off+n > errAt {
+		n = errAt - r.off
 	}
 	if r.plan.StallAt >= 0 && r.off+n > r.plan.StallAt {
 		n = r.plan.StallAt - r.off
@@ -241,8 +251,9 @@ func (r *SimReader) Read(p []byte) (int, error) {
 	if n < len(p) {
 		r.st.shortReads++
 	}
-	if r.plan.ErrAt >= 0 && r.off >= r.plan.ErrAt && r.plan.ErrWithData && n > 0 {
+	if errAt >= 0 && r.off >= errAt && r.plan.ErrWithData && n > 0 {
 		r.st.readErrors++
+		r.errFired = true
 		return n, errInjectedRead
 	}
 	if r.off >= end && r.plan.EOFWithData && n > 0 {
@@ -575,6 +586,15 @@ func genRoundTripCase(prop, tier string, r *rand.Rand) *Case {
 			}
 		}
 	}
+	if r.IntN(4) == 0 {
+		// what this process was given to decode before: streams that were
+		// refused, each at a line that is fine where the document has it
+		for _, role := range []string{"HUSB", "WIFE", "CHIL"} {
+			for _, who := range []string{"I1", "I2", "X9"} {
+				cfg.Prior = append(cfg.Prior, "0 HEAD\n1 "+role+" @"+who+"@\n")
+			}
+		}
+	}
 	cfg.Plans = genReadPlans(r, 0, 4)
 	cfg.AllWriteFaults = true
 	if r.IntN(3) == 0 {
@@ -765,6 +785,28 @@ func runRoundTrip(t *testing.T, c *Case, cr *CaseResult) *CaseResult {
 			cr.NonTrivial = true
 			cr.Distinct = append(cr.Distinct, fmt.Sprintf("%x|%v", hashBytes(text), p))
 		}
+	}
+
+	// the reader fails once in the middle of the encoder's output and then
+	// goes on (an interrupted call): an error, never a document - least of all
+	// a different one
+	if len(text) <= 600 {
+		for k := 0; k <= len(text); k++ {
+			p := wholePlan()
+			p.ErrAt, p.ErrOnce, p.ErrWithData = k, k%2 == 0, k%4 >= 2
+			out := decodeWith(text, p, false, false, st)
+			cr.Runs++
+			if out.panicVal == "" && out.err == nil {
+				got := "the same document"
+				if out.doc != nil && dumpForest(fromDoc(out.doc), true) != want {
+					got = "a different document"
+				}
+				cr.violate(prop+"/read-fault", "read error swallowed: "+got+" is returned",
+					fmt.Sprintf("the reader failed (once: %v) at offset %d of %d of the encoder's output and Decode returned a nil error", p.ErrOnce, k, len(text)))
+				break
+			}
+		}
+		cr.NonTrivial = true
 	}
 
 	// writer faults at every call k
@@ -1063,7 +1105,7 @@ func splitLines(data []byte) []string {
 	return out
 }
 
-var c02Tags = []string{"HEAD", "NAME", "BIRT", "DATE", "PLAC", "NOTE", "SOUR", "SEX", "DEAT", "OCCU", "_UID", "x", "CONT", "A1", "TITL", "INDI", "FAM", "RESI", "TYPE"}
+var c02Tags = []string{"HEAD", "NAME", "BIRT", "DATE", "PLAC", "NOTE", "SOUR", "SEX", "DEAT", "OCCU", "_UID", "x", "CONT", "CONC", "CONT", "A1", "TITL", "INDI", "FAM", "RESI", "TYPE"}
 
 func genStructureCase(prop, tier string, r *rand.Rand) *Case {
 	cfg := &StreamCfg{Mode: "structure", AllowMultiLine: r.IntN(2) == 0, AllowInvalidIndents: r.IntN(2) == 0}
@@ -1137,11 +1179,20 @@ func genStructureCase(prop, tier string, r *rand.Rand) *Case {
 		}
 		b = append(b, line...)
 		b = append(b, eol()...)
+		if !cfg.AllowMultiLine && r.IntN(60) == 0 {
+			// a line of blanks only is not an empty line: not a line of the grammar
+			b = append(b, pick(r, []string{"  ", "\t", " "})...)
+			b = append(b, pick(r, []string{"\n", "\r\n"})...)
+		}
 		// a continuation line (multi-line mode): never shaped like a valid
 		// line. After a record line (INDI/FAM lines carry no value) it makes
 		// the stream unacceptable; that is rare enough to keep most streams.
 		if cfg.AllowMultiLine && r.IntN(6) == 0 && (tag != "INDI" && tag != "FAM" || r.IntN(8) == 0) {
-			cont := pick(r, []string{"continued text", "  indented words", "more: 1 2 3", "@ not a line", "x"})
+			cont := pick(r, []string{"continued text", "  indented words", "more: 1 2 3", "@ not a line", "x", "   ", "\t", " "})
+			if strings.TrimSpace(cont) == "" && r.IntN(2) == 0 {
+				// a line of blanks only in the middle of a continued value
+				cont += pick(r, []string{"\n", "\r\n"}) + "and more"
+			}
 			b = append(b, cont...)
 			b = append(b, pick(r, []string{"\n", "\r\n"})...)
 		}
@@ -1273,10 +1324,12 @@ func runStructure(t *testing.T, c *Case, cr *CaseResult) *CaseResult {
 	// a read error is never turned into a silently shorter document
 	if cfg.AllReadErrors {
 		for k := 0; k <= len(data); k++ {
-			for _, withData := range []bool{false, true} {
+			for variant, withData := range []bool{false, true, false, true} {
 				p := wholePlan()
 				p.ErrAt = k
 				p.ErrWithData = withData
+				// (the last two: the reader fails once and then goes on)
+				p.ErrOnce = variant >= 2
 				p.Chunks = []int{pick2(k)}
 				o := decodeWith(data, p, ml, ii, st)
 				cr.Runs++
@@ -1285,8 +1338,16 @@ func runStructure(t *testing.T, c *Case, cr *CaseResult) *CaseResult {
 					continue // C03
 				}
 				if o.err == nil {
+					once := ""
+					if p.ErrOnce {
+						once = " once"
+						cr.count("stream.read_error_once", 1)
+					}
 					cr.violate(prop+"/read-error", "read error swallowed: a document is returned",
-						fmt.Sprintf("the reader failed at offset %d of %d (with data in the same call: %v) and Decode returned a document and a nil error", k, len(data), withData))
+						fmt.Sprintf("the reader failed%s at offset %d of %d (with data in the same call: %v) and Decode returned a document and a nil error", once, k, len(data), withData))
+				}
+				if p.ErrOnce {
+					continue
 				}
 				// history: the retry on a healthy stream gives what the first
 				// decode gave, whatever failed in between (judged for a
@@ -1451,6 +1512,22 @@ func genTotalityCase(prop, tier string, r *rand.Rand) *Case {
 		if r.IntN(2) == 0 {
 			b = append(b, "0 HEAD\n2 NOTE y\n"...)
 		}
+	case 5: // a long run of blank lines (or one very long line, below)
+		if r.IntN(3) == 0 {
+			n := pick(r, []int{1000, 50000, 700000})
+			if tier == "thorough" && r.IntN(3) == 0 {
+				n = 2500000
+			}
+			b = append([]byte("0 HEAD\n"), bytes.Repeat([]byte(pick(r, []string{"\n", "\r\n", "\r"})), n)...)
+			b = append(b, "0 TRLR\n"...)
+			// (with AllowMultiLine every blank line is appended to the value
+			// of the line before it, one string concatenation each: quadratic
+			// in the library as it is, minutes for this input - slow, not a
+			// hang, and not what this case is after)
+			cfg.AllowMultiLine = false
+			break
+		}
+		fallthrough
 	default: // a very long line
 		n := 1000 + r.IntN(200000)
 		if tier == "thorough" && r.IntN(4) == 0 {
@@ -1582,6 +1659,7 @@ func runTotality(t *testing.T, c *Case, cr *CaseResult) *CaseResult {
 			p := wholePlan()
 			p.ErrAt = k
 			p.ErrWithData = k%2 == 1
+			p.ErrOnce = k%3 == 0 // the reader fails once and then goes on
 			o := decodeWith(data, p, ml, ii, st)
 			judge(fmt.Sprintf("read error at %d of %d", k, len(data)), o, true)
 			if o.err == nil && o.panicVal == "" && o.doc != nil {
